@@ -169,6 +169,18 @@ Definition check_hinv_oracle (given : list (list Qc)) : bool :=
   closeM tol (list_of_mat N V) given &&
   closeM tol_inv (list_of_mat N (matmul Qc (Q2Qc 0) Qcplus Qcmult N U V)) (list_of_mat N (ident Qc (Q2Qc 0) (Q2Qc 1))).
 
+(* the same with a subspace (h and h_inv both given): `given` is the sub-block of the returned matrix, i.e.
+   what np.linalg.inv produced for the reduced update; the full result must be the embedding of that block
+   into the input h_inv (not into h), and block x reduced direct update = I *)
+Definition check_hinv_oracle_sub (given expect : list (list Qc)) : bool :=
+  let Eg := QE given in
+  let k := red_n sub N in
+  let U := mtab k (upd_h Eg mineig c k (red_m sub H) (red_m sub HI) (red_v sub S) (red_v sub Y)) in
+  negb (has_zero_b (eff c (h_denoms Eg mineig c k (red_m sub H) (red_m sub HI) (red_v sub S) (red_v sub Y)))) &&
+  closeM tol (list_of_mat N (impl_updated_h_inv Eg (upd_hinv Eg mineig c) sub N H HI S Y)) expect &&
+  closeM tol_inv (list_of_mat k (matmul Qc (Q2Qc 0) Qcplus Qcmult k U (mat_of_list given)))
+                 (list_of_mat k (ident Qc (Q2Qc 0) (Q2Qc 1))).
+
 (* .conditions_met == expect *)
 Definition check_cond (expect : bool) : bool :=
   negb (has_zero_b (cond_denoms E0 mineig c (red_n sub N) (red_m sub H) (red_m sub HI) (red_v sub S) (red_v sub Y))) &&
@@ -191,7 +203,8 @@ Definition fl (m e : Z) : Qc :=
 (* one generated input, all classes: three verdicts (updated_h, conditions_met, updated_h_inv) per class *)
 Inductive exp_h := HSkip | HMat (m : list (list Qc)) | HUndef (nonfinite : bool) | HBad.
 Inductive exp_c := CSkip | CVal (b : bool) | CUndef (raised : bool) | CBad.
-Inductive exp_i := ISkip | IMat (m : list (list Qc)) | IOracle (m : list (list Qc)) | IBad.
+Inductive exp_i := ISkip | IMat (m : list (list Qc)) | IOracle (m : list (list Qc))
+  | IOracleSub (given expect : list (list Qc)) | IBad.
 
 Definition class_checks (sub : option (list nat)) (N : nat) (hl hil : list (list Qc)) (sl yl : list Qc) (mineig : Qc)
     (e : cls * exp_h * exp_c * exp_i) : list bool :=
@@ -212,6 +225,7 @@ Definition class_checks (sub : option (list nat)) (N : nat) (hl hil : list (list
     | ISkip => true
     | IMat m => check_hinv c sub N hl hil sl yl mineig m
     | IOracle m => check_hinv_oracle c N hl hil sl yl mineig m
+    | IOracleSub g m => check_hinv_oracle_sub c sub N hl hil sl yl mineig g m
     | IBad => false
     end ].
 Definition case_checks (sub : option (list nat)) (N : nat) (hl hil : list (list Qc)) (sl yl : list Qc) (mineig : Qc)
